@@ -96,8 +96,9 @@ def coq_steps(case, obs, share):
                 share[t] = "h%d" % len(share)
             hs.append(share[t])
         xs = clist([cpair(cstr(x["c"]), cZ(x["code"])) for x in s.get("x", [])])
-        so = ("{| t_valid := %s; t_delivered := %s; t_res := %s; t_hosts := %s; t_x := %s |}" %
-              (cbool(s["valid"]), cbool(s["delivered"]), cZ(RESCODE.get(s["res"], 3)), clist(hs), xs))
+        so = ("{| t_valid := %s; t_fvalid := %s; t_delivered := %s; t_res := %s; t_hosts := %s; t_x := %s |}" %
+              (cbool(s["valid"]), cbool(s.get("fvalid", False)), cbool(s["delivered"]), cZ(RESCODE.get(s["res"], 3)),
+               clist(hs), xs))
         out.append(cpair(coq_op(p), so))
     return clist(out)
 
@@ -110,7 +111,7 @@ def coq_case(case, obs):
     share = {}   # identical host observations are bound once (let) to keep the case files small
     st = coq_steps(case, obs, share)
     if st is None:  # panic in the harness: a case that disagrees visibly
-        return "{| c_hosts := [(\"x\", \"x\")]; c_xps := []; c_steps := [(ODelete \"x\", {| t_valid := true; t_delivered := true; t_res := 3; t_hosts := []; t_x := [] |})] |}"
+        return "{| c_hosts := [(\"x\", \"x\")]; c_xps := []; c_steps := [(ODelete \"x\", {| t_valid := true; t_fvalid := true; t_delivered := true; t_res := 3; t_hosts := []; t_x := [] |})] |}"
     lets = "".join("let %s := %s in " % (n, t) for t, n in share.items())
     xps = clist([cpair(cstr(x[0]), cstr(x[1])) for x in case.get("xp", [])])
     return "(%s{| c_hosts := %s; c_xps := %s; c_steps := %s |})" % (lets, coq_hosts(case), xps, st)
@@ -169,6 +170,16 @@ def corpus():
     cs.append(mk([AP(O(b"a", sn=[b"x"], cert=1, key=1, ca=2, gates=[(1, 1)])), AP(O(b"a")),
                   AP(O(b"a", sn=[b"x"], cert=1, key=1, ca=2, gates=[(1, 1)])), AP(O(b"a", ann=3, sn=[b"x"])),
                   AP(O(b"a", sn=[b"x"], cert=1, key=1, ca=2, gates=[(1, 1)]))], [b"a", b"x"]))
+    # a version rejected by the controller (server-name conflict: admission race, the object reached the store although
+    # b holds the name) is requeued; a newer version is synced; the reason for the rejection disappears; the queue
+    # re-delivers the stale version: the cluster must keep the names of its CURRENT version (seeded/C10-e)
+    cs.append(mk([AP(O(b"b", sn=[b"x"])), AP(O(b"a")), AP(O(b"a", sn=[b"x"]), force=True), AP(O(b"a", sn=[b"y"])),
+                  DEL(b"b"), RETRY(2), RETRY(3)], [b"a", b"b", b"x", b"y"]))
+    cs.append(mk([AP(O(b"b", sn=[b"x"], cert=1, key=1)), AP(O(b"a", sn=[b"X", b"y"], cert=2, key=2, ca=1), force=True),
+                  AP(O(b"a", sn=[b"y"], ca=3)), AP(O(b"b")), RETRY(1), AP(O(b"b", sn=[b"x"])), RETRY(1)],
+                 [b"a", b"b", b"x", b"y"]))
+    cs.append(mk([AP(O(b"b", sn=[b"a"])), AP(O(b"a", sn=[b"z"], gates=[(1, 1)]), force=True), RETRY(1), DEL(b"b"),
+                  AP(O(b"a")), RETRY(1), DEL(b"a"), RETRY(1)], [b"a", b"b", b"z"]))
     # DenyAllRequests gate, forced collisions (admission bypassed), delete of a never created cluster
     cs.append(mk([AP(O(b"a", sn=[b"x"], gates=[(1, 1)])), AP(O(b"b", sn=[b"x"]), force=True), AP(O(b"x"), force=True),
                   DEL(b"a"), RETRY(1), RETRY(2), DEL(b"x"), DEL(b"b"), DEL(b"c")], [b"a", b"b", b"x", b"c"]))
@@ -179,7 +190,7 @@ def corpus():
 
 
 def generate(rng, tier, scale=1):
-    n_clean, n_retry, n_rob = (120, 30, 40) if tier == "quick" else (3000, 800, 800)
+    n_clean, n_retry, n_rob, n_conf = (105, 25, 35, 30) if tier == "quick" else (3000, 800, 800, 800)
     cs = []
     for _ in range(n_clean * scale):
         c = c10gen.gen_history(rng)
@@ -187,6 +198,10 @@ def generate(rng, tier, scale=1):
         cs.append(c)
     for _ in range(n_retry * scale):      # redeliveries and objects the client library refuses
         c = c10gen.gen_history(rng, p_retry=20, p_gap=8)
+        c["views"] = False
+        cs.append(c)
+    for _ in range(n_conf * scale):       # admission races: rejected versions are requeued and re-delivered later
+        c = c10gen.gen_conflict_history(rng)
         c["views"] = False
         cs.append(c)
     for _ in range(n_rob * scale):        # outside the quantifier: admission bypassed, invalid objects
